@@ -72,6 +72,8 @@ class P(Prop):
     id = "C04"
     design_ref = "DESIGN.md section 5, C04 and appendix A.5"
     M = "TracklibVerif.Props.C04"
+    MS = "TracklibVerif.Props.C04Slice"
+    MM = "TracklibVerif.Props.C04More"
     theorems = [
         (M, "TV.C04.dichotomy_in_range", "T1: for any timestamps and any first step 2^j with 2*2^j <= N the search loop, run with an access that fails on every index outside 0..N-1, ends within fuel j+N+3 at an index 0..N-1"),
         (M, "TV.C04.insertionIndex_no_index_error", "T1 whole function: on every list __getInsertionIndex returns an index 0..N without reading outside 0..N-1 (no IndexError, no negative wrap); the model as run gives the same"),
@@ -124,25 +126,56 @@ class P(Prop):
         (M, "TV.C04.sortRadix_sorted", "sortRadix: if the lexicographic order of the fields implies the order of the timestamps, the result is non-decreasing in time and a permutation of the records"),
         (M, "TV.C04.lex_stamps", "for two well-formed timestamps (C03's WFs) the lexicographic order of the digits sortRadix reads is the order of the epoch instants (through C03's ltS_iff)"),
         (M, "TV.C04.sortRadix_stamps", "for EVERY track of well-formed timestamps (C03's WFs, no bound on the year) sortRadix is a stable sort by time: no exception, a permutation, non-decreasing epoch milliseconds, equal instants keep their order"),
+        # ---- slices with a negative step; the boundary of the oracle's domain (Props/C04Slice.lean)
+        (MS, "TV.C04.getitemSlice_neg_spec", "track[a:b:c], c <= -1, EVERY a, b (absent / negative / beyond the ends): with (s, e) the bounds as slice.indices adjusts them (absent start = size-1, absent stop = -1, x >= 0 -> min(x, size-1), x < 0 -> max(x+size, -1)) the result is exactly the observations at s, s-|c|, s-2|c|, ... > e in this reversed order (= every |c|-th of reversed(track[e+1:s+1])), table carried"),
+        (MS, "TV.C04.getitemSlice_reversed", "track[::-1] = all the observations, last first, table carried"),
+        (MS, "TV.C04.decimateStep_neg_spec", "track % (-d) = track[::-d]: the observations at size-1, size-1-d, ..., last first"),
+        (MS, "TV.C04.getitemSlice_raises_iff", "track[a:b:c] raises (ValueError) exactly when c = 0"),
+        (MS, "TV.C04.decimateStep_raises_iff", "track % n raises (ValueError) exactly when n = 0"),
+        (MS, "TV.C04.decimatePattern_raises_iff", "track % pattern raises (ZeroDivisionError) exactly for the empty pattern on a non-empty track; on the empty track the result is the empty track with the table"),
+        (MS, "TV.C04.extract_total", "extract(a,b), EVERY integers: IndexError exactly when a <= b and (a < -size or b >= size); otherwise b+1-a observations, the i-th being track[a+i] with Python indexing (a negative a wraps around the end), table carried"),
+        (MS, "TV.C04.dropFirst_neg", "track > -k keeps the LAST k observations (all when k >= size); never raises"),
+        (MS, "TV.C04.dropLast_neg", "track < n with n <= 0 returns all the observations; never raises"),
+        (MS, "TV.C04.getitemInt_raises_iff", "track[i] raises IndexError exactly when i >= size or i < -size"),
+        (MS, "TV.C04.removeObs_total", "removeObs(i): -size <= i < 0 removes the observation size+i (1 returned); i >= size or i < -size raises IndexError and removes nothing"),
+        (MS, "TV.C04.removeEnds_empty", "removeFirstObs / removeLastObs on the empty track raise IndexError"),
+        (MS, "TV.C04.popObs_total", "popObs(i) outside -size..size-1 raises IndexError and removes nothing; -size <= i < 0 returns and removes the observation size+i"),
+        (MS, "TV.C04.insertAt_total", "insertObs(obs, i), EVERY integer i: never raises, the observation goes to the position i clamped as list.insert does (i > size -> size, i < 0 -> max(0, size+i)), the others keep their order"),
+        (MS, "TV.C04.removeByIdx_index_error", "removeObsList(distinct indices whose largest is >= size): IndexError at the first deletion, nothing removed"),
+        (MS, "TV.C04.extractSpanTrack_empty", "extractSpanTime(empty track) raises IndexError"),
+        # ---- the remaining list operations (Model/SeqMore.lean, Props/C04More.lean)
+        (MM, "TV.C04.reverse_spec", "reverse() = all the observations, last first, with the source's table (= track[::-1]); every observation reads what it read in the source"),
+        (MM, "TV.C04.reverse_reverse", "reversing twice gives the track back"),
+        (MM, "TV.C04.makeOdd_makeEven_spec", "makeOdd: IndexError exactly on the empty track, otherwise a prefix of odd size (the last observation dropped iff the size was even); makeEven never raises: a prefix of even size"),
+        (MM, "TV.C04.setObs_spec", "setObs(i, obs) / track[i] = obs: a valid i (negative from the end) replaces exactly that position, every other position and the size unchanged; IndexError exactly when i >= size or i < -size"),
+        (MM, "TV.C04.firstLast_spec", "getFirstObs / getLastObs = first / last observation; IndexError on the empty track"),
+        (MM, "TV.C04.splitEven_spec", "track / number (number >= 1, N = size div number): number segments, the i-th exactly the observations i*N .. i*N+N-1 with the source's table (Carries); together the first number*N observations; the last size mod number observations are in no segment"),
+        (MM, "TV.C04.splitEven_boundary", "track / 0 raises ZeroDivisionError; a negative number gives no segment"),
+        (MM, "TV.C04.removeByTimes_spec", "removeObsList(timestamps): what is left is a sub-sequence of the old observations, the number returned is the number removed; with distinct listed timestamps on a track of distinct timestamps exactly the observations whose timestamp is not listed are left"),
+        (MM, "TV.C04.removeByTimes_refuses_duplicates", "removeObsList with a repeated timestamp removes nothing and returns 0"),
     ]
     partial = []
     open_statements = [
         "'without modifying the source track' cannot be stated about a purely functional model (observations are values, tracks share none): it is checked on the real code by the oracle — every track of the pool is dumped after every operation of a session, and a feature created afterwards on one track must not appear in another's table",
-        "track[a:b:c] with a NEGATIVE step is modelled (reversed walk) and compared with the code, not covered by a theorem; sortRadix on a timestamp with a non-integer ms (TypeError) is outside the model",
+        "sortRadix on a timestamp with a non-integer ms (TypeError) is outside the model",
+        "CPython's slice.indices (PySlice_AdjustIndices) is a modelled contract (sliceBounds / sliceLen): getitemSlice_spec / getitemSlice_neg_spec are about the model's adjustment; the 'sliceidx' stream compares it with slice(a,b,c).indices(n) and len(range(...)) for every a, b in None, -n-3..n+3, 9 steps, n <= 8, and on random lengths up to 2^39",
+        "(int)(size / number) in track / number is a float division: modelled as the integer quotient (exact below 2^53)",
         "(int)(math.log(N)/math.log(2)) = floor(log2 N) is a float computation outside the theorems: T1/T2 hold for any first step 2^j with 2*2^j <= N; the 'ilog' stream checks the expression for every N <= 2^16 (2^21 thorough) and around every 2^k, k < 40",
-        "arguments with no designated observation (negative indices / counts, index >= size, zero step, empty pattern) are modelled and compared with the code but are outside the property's oracle",
+        "arguments with no designated observation (negative indices / counts, index >= size, zero step, empty pattern) stay outside the property's ORACLE; what the code does there is now proved of the model operator by operator (Props/C04Slice.lean: which arguments raise, which clamped / wrapped selection the others make). Still only modelled and compared, without a theorem: removeObsList with a NEGATIVE index in a list of several (the deletions done before the IndexError stay done), a track holding the same observation twice",
     ]
     modelled = ("Track.__getInsertionIndex (dichotomy + two fix-up loops), insertObs (with and without index) / insertObsInChronoOrder / addObs, "
                 "sort (np.argsort = trusted call with the contract 'sorting permutation'), sortRadix (the five fixed bucket passes and the year pass over min..max year of the track, on positions), "
                 "removeObsList/__removeObsListById/__removeObsById, removeObs / removeFirstObs / removeLastObs / popObs, extract, "
                 "extractSpanTime (two instants or a track), __add__, __mod__ (int and list), __gt__/__lt__ with an integer, "
-                "__getitem__ (integer, slice with CPython's index adjustment, (name, i) / (i, name), name), __transmitAF; the feature table "
+                "__getitem__ (integer, slice with CPython's index adjustment, (name, i) / (i, name), name), __setitem__ with an integer / setObs, reverse, makeOdd / makeEven, "
+                "getFirstObs / getLastObs, __truediv__ (even split into a TrackCollection), removeObsList with ObsTimes (__removeObsListByTimestamp / __removeObsByTimestamp), __transmitAF; the feature table "
                 "__analyticalFeaturesDico as (name, column) pairs with getObsAnalyticalFeature / getAnalyticalFeature / "
                 "createAnalyticalFeature (list or scalar) / removeAnalyticalFeature on non-reserved names; an interpreter applying these "
                 "operations in sequence to a pool of tracks. Timestamps as integers (C03 proves the field-wise order is the epoch order)")
     trusted = ["sessions: a new observation's feature list is laid out by the harness following getListAnalyticalFeatures() (column = rank), as a caller has to",
                "numpy argsort on an object array: only 'returns a sorting permutation' is assumed (it is not stable for ties); "
-               "CPython list.insert / del / slices / negative indices modelled as documented",
+               "CPython list.insert / del / pop / item assignment / slices (PySlice_AdjustIndices) / negative indices modelled as documented; "
+               "copy.deepcopy in reverse() = same records; list.sort on ObsTime objects = order of the instants (C03)",
                "(int)(math.log(N)/math.log(2)) modelled as floor(log2 N); the theorems hold for any first step 2^j with 2*2^j <= N"]
     rule = ("every track of size 0..6 (0..7 thorough) over the time values {1,3,5,7} x every instant 0..8 (before / equal / between / after) for "
             "insertion and for sort; every sorted track of sizes 0..70 x every instant for the insertion index; random sorted tracks with ties of "
@@ -157,6 +190,8 @@ class P(Prop):
             "-n-2..n+2 on sizes 0..4; every pair of histories x '+' (also with an empty operand that carries a table); every history x every operator followed "
             "by a second operator; 4000 (40000 thorough) random chains. sortRadix: pairs later in one field and earlier in every / one less significant field, "
             "random tracks of 1..40 timestamps (years 1..2500, on both sides of 1970..2069 in one track too). "
+            "reverse / makeOdd / makeEven / getFirstObs / getLastObs, setObs(i) and track[i] = obs for i in -n-2..n+2, track / k for k in -2..n+3, removeObsList(timestamps) for every list of <= 2 instants 0..8, on sizes 0..6, "
+            "and 300 (3000) random larger ones; slice.indices against the model's bounds (every a, b in None, -n-3..n+3 x 9 steps, n <= 8; random lengths up to 2^39). "
             "non-trivial = a track has at least 2 observations (so a loop of the operation runs)")
 
     # ---------------------------------------------------------------- setup / construction
@@ -236,7 +271,10 @@ class P(Prop):
                 "one-operation sessions on sizes 0..4: track[a:b:c] for a, b in None, -n-1..n+1 and c in None, 1, 2, 3, -1, -2, 0; track[i], removeObs(i), popObs(i), "
                 "insertObs(obs, i) (3 instants), track[name, i] / track[i, name] / getObsAnalyticalFeature for 3 names, for every i in -n-2..n+2; track[name]; "
                 "removeFirstObs, removeLastObs, addObs; extractSpanTime(track) for every other track of size 0..2 over {1,3,5,7}",
-                "every ordered pair of the 11 feature histories x '+' (two size pairs), the sum fed to a second operator and to '+' again, and '+' with an empty operand carrying a table"]
+                "every ordered pair of the 11 feature histories x '+' (two size pairs), the sum fed to a second operator and to '+' again, and '+' with an empty operand carrying a table",
+                "reverse, makeOdd, makeEven, getFirstObs, getLastObs; setObs(i, obs) and track[i] = obs for i in -n-2..n+2; track / k for k in -2..n+3; "
+                "removeObsList(timestamps) for every list of 0..2 instants over 0..8; on sizes 0..6",
+                "slice(a, b, c).indices(n) and the slice length for every a, b in None, -n-3..n+3, c in +-1, +-2, +-3, +-5, 0, n in 0..8, against the model's sliceBounds / sliceLen"]
 
     def cases(self, rng, tier):
         out = []
